@@ -46,6 +46,25 @@ def find_tiny(v, depth=0):
     return terms.find_terms(v, lambda t: t[0] == 'tiny')
 
 
+def inner_path(val, target, depth=0):
+    """field path from a stored value down to the sub-term `target` (through Some(..) payloads = 0, tuple / struct fields); () if val is it"""
+    if val is target or val == target:
+        return ()
+    if depth > 8 or not isinstance(val, tuple) or not val:
+        return None
+    if val[0] == 'adt':
+        for i, x in enumerate(val[3]):
+            r = inner_path(x, target, depth + 1)
+            if r is not None:
+                return (i,) + r
+    if val[0] == 'tuple':
+        for i, x in enumerate(val[1]):
+            r = inner_path(x, target, depth + 1)
+            if r is not None:
+                return (i,) + r
+    return None
+
+
 def sink_of_place(px, pl):
     """stable description of a local / field sink: ('L', local, field path)"""
     path = []
@@ -130,6 +149,10 @@ class ParserAnalysis:
                 for t in st.tokens:
                     if tt[1] == t.subject:
                         tok, xf = t, tt[2]
+                        # the cell inside the stored value that holds the token's text refines the sink (Some((key, values)) -> .0.0)
+                        inner = inner_path(val, tt)
+                        if inner and sink is not None and len(sink) == 3:
+                            sink = (sink[0], sink[1], tuple(sink[2]) + tuple(inner))
             st.stores.append((sink, val, tok, xf, ev[3] if len(ev) > 3 else None))
         # sub-parser calls with the iterator
         for ev in s.events:
@@ -162,7 +185,7 @@ class ParserAnalysis:
         e = self.e
         parts = []
         for t in st.tokens:
-            parts.append('tok%s%s%s: %s' % (t.el[2], '*' if t.consumed else '', {'pos': '', 'neg': '(none)', None: '(?)'}[t.present],
+            parts.append('tok%s%s%s: %s' % ('L' if t.el[2] == -1 else t.el[2], '*' if t.consumed else '', {'pos': '', 'neg': '(none)', None: '(?)'}[t.present],
                                            (t.shape.describe()[:maxlen] if t.shape is not None else 'any')))
         for sink, val, tok, xf, sp in st.stores:
             parts.append('store %s := %s%s' % (sink, ('tok%s/%s' % (tok.el[2], '+'.join(xf) if xf else 'raw')) if tok else e.short(val, 60), ''))
